@@ -82,6 +82,9 @@ example : fwIntToHex [10, 2, 8, 0x4B37] = some "0a0002000800374b".toList ∧
 theorem bytes_roundtrip (bs : List Nat) (h : IsBytes bs) : unhexlify (hexBytes bs) = some bs :=
   unhexlify_hexBytes bs h
 
+example : IsBytes [0, 17, 255] ∧ String.ofList (hexBytes [0, 17, 255]) = "0011ff" ∧
+    unhexlify "0011ff".toList = some [0, 17, 255] ∧ unhexlify "0011FF".toList = some [0, 17, 255] := by decide
+
 /-- a word outside 0..65535 cannot be packed (`struct.error` in the code) -/
 theorem pack_rejects (ws : List Nat) (h : ¬ IsWords ws) : fwIntToHex ws = none := by
   cases hp : fwIntToHex ws with
@@ -326,6 +329,11 @@ example : String.ofList (hexWrite 0xFFFE 4 [1, 2, 3, 4, 5, 6, 7, 8, 9, 10]) =
 
 example : hexLoad (hexWrite 0xFFFE 4 [1, 2, 3, 4, 5, 6, 7, 8, 9, 10]) = some [1, 2, 3, 4, 5, 6, 7, 8, 9, 10] := by
   decide
+
+/-- the hypotheses at their limits: last two bytes of the 32-bit address space, longest record -/
+example : IsBytes [1, 2] ∧ 0xFFFFFFFE + [1, 2].length ≤ 4294967296 ∧
+    String.ofList (hexWrite 0xFFFFFFFE 255 [1, 2]) = ":02000004FFFFFC\n:02FFFE000102FE\n:00000001FF\n" ∧
+    hexLoad (hexWrite 0xFFFFFFFE 255 [1, 2]) = some [1, 2] := by decide
 
 /-- the reader rejects a bad checksum, an overlap and a bad record type, accepts a missing
     EOF record, CRLF line ends and lower-case digits, fills gaps with 0xFF -/
